@@ -239,10 +239,14 @@ ProgTable == ElabSeq          \* program "ids" of the model are indices into thi
 CompiledIds == {i \in 1..Len(RawSeq) : RawSeq[i].family \in {"corpus", "shared", "perm", "override", "collide", "generic"}}
 
 (* ------------------------------------------------------------ documents *)
-KeyUniverse(q) == EWireUniverse(q) \cup EArgUniverse(q) \cup {"zz_unknown"}
+(* long documents (a body of ~1.2 kB of four-byte characters after 0..3 one-byte characters: whatever byte offset a *)
+(* decoder cuts or inspects the text at, one of the four variants has a character straddling it)                    *)
+LongBodies == {"utf8pad0", "utf8pad1", "utf8pad2", "utf8pad3"}
+(* "__phantom": the name under which the hidden variant of a generic message type would be known if it were not skipped *)
+KeyUniverse(q) == EWireUniverse(q) \cup EArgUniverse(q) \cup {"zz_unknown", "__phantom"}
 DocsFor(q) ==
   UNION {
-       {[shape |-> "obj1", key |-> k, body |-> b, path |-> pa] : k \in KeyUniverse(q), b \in {"exact", "missing", "wrongtype", "extra", "notobj", "dropdefault"}}
+       {[shape |-> "obj1", key |-> k, body |-> b, path |-> pa] : k \in KeyUniverse(q), b \in {"exact", "missing", "wrongtype", "extra", "notobj", "dropdefault", "null"} \cup LongBodies}
   \cup {[shape |-> s, key |-> k, body |-> "exact", path |-> pa] : s \in {"obj2", "dup"}, k \in EWireUniverse(q)}
   \cup {[shape |-> "obj0", key |-> "", body |-> "none", path |-> pa], [shape |-> "nonobj", key |-> "", body |-> "none", path |-> pa]}
   \cup {[shape |-> "flat", key |-> k, body |-> b, path |-> pa] : k \in {"instantiate", "migrate"}, b \in {"exact", "dropdefault"}}
@@ -314,6 +318,9 @@ StimSet(q) ==
   \cup {St(e, "flat", M(q, x).kind, "exact", q.parts[x[1]].id, M(q, x).name, 1) : x \in StructMs(q), e \in Eps(q)}
     \* unknown names and degenerate shapes
   \cup {St(e, "obj1", "zz_unknown", "exact", "", "", 0) : e \in Eps(q)}
+  \cup {St(e, "obj1", "zz_unknown", b, "", "", 0) : e \in Eps(q) \cap EnumKinds, b \in LongBodies}
+    \* names a generated message type might know besides its handlers' (the hidden variant of generic messages), with a null and an object body
+  \cup {St(e, "obj1", "__phantom", b, "", "", 0) : e \in Eps(q) \cap EnumKinds, b \in {"null", "exact"}}
   \cup {St(e, "obj0", "", "none", "", "", 0) : e \in Eps(q)}
   \cup {St(e, "nonobj", n, "none", "", "", 0) : e \in Eps(q), n \in {"array", "string", "number", "bool", "null"}}
   \cup {St(e, "obj2", FirstWires(q, e)[1], "exact", "", "", 0) : e \in {k \in Eps(q) \cap EnumKinds : Len(FirstWires(q, k)) = 2}}
